@@ -119,3 +119,28 @@ def gen_html_patterns():
         out.extend(_info(lean_name, rx))
     out.append("end Ural.Gen.Html")
     return {"HtmlPatterns.lean": "\n".join(out) + "\n"}
+
+
+@generator
+def gen_html_re():
+    """URL_IN_HTML_RE (str) as a term of the shared regex framework `Py/Re.lean`, for the
+    three-way comparison real `re` / generic interpreter / hand-written scanner run by the
+    driver (executable only, no theorem rests on it).  SCRIPT_TAG_RE has `\\b` and a negative
+    look-ahead, and the two others are bytes patterns: the framework has no rule for them."""
+    import importlib
+
+    from gen_tables.regex import PatternFile, Untranslatable
+
+    ufh = importlib.import_module("ural.urls_from_html")
+    pf = PatternFile(
+        "Ural.Gen.HtmlRe",
+        "URL_IN_HTML_RE of ural/urls_from_html.py as parsed by CPython's re._parser on this run "
+        "(capturing groups are transparent: only group 0 is modelled)",
+    )
+    try:
+        pf.add("URL_IN_HTML_RE", ufh.URL_IN_HTML_RE)
+        pf.add_raw("def urlInHtmlRe : Option Re := some URL_IN_HTML_RE\n")
+    except Untranslatable as e:
+        pf = PatternFile("Ural.Gen.HtmlRe", "URL_IN_HTML_RE has no translation: %s" % e)
+        pf.add_raw("def urlInHtmlRe : Option Re := none\n")
+    return {"HtmlRe.lean": pf.render()}
